@@ -12,9 +12,10 @@
    they return RErr KeyErr / RErr IndexErr), so that "the read does not raise"
    is a theorem about this model and not a convention.
 
-   Definitions without suffix follow the code with the proposed repairs
-   (handoff/C13-fix-1..7.diff); definitions ending in _old follow the pinned
-   code where it differs.  Fragment: one ungrouped CF-1.11 file without
+   Definitions without suffix follow the code with the repairs
+   (handoff/C13-fix-1..7.diff, applied, and handoff/C13-fix2-1..3.diff);
+   definitions ending in _old follow the pinned code where it differs,
+   definitions ending in _head the code before the fix2 diffs.  Fragment: one ungrouped CF-1.11 file without
    compression, geometries, UGRID, subsampling or external files (ROut marks
    an input outside the fragment, never an exception). *)
 From CfdmV Require Import Common.Base.
@@ -68,6 +69,38 @@ Definition get_var (ds : ads) (n : string) : res var :=
   match find_var (a_vars ds) n with Some v => ROk v | None => RErr KeyErr end.
 
 Definition attr (v : var) (a : string) : option string := assoc a (v_attrs v).
+
+(* The attributes the reader looks at on a variable it reaches THROUGH a
+   reference (a coordinate, bounds or formula-terms variable):
+   g["variable_attributes"][ncvar].get("bounds" | "climatology" | "formula_terms").
+   All other reference attributes (coordinates, grid_mapping, cell_measures,
+   cell_methods, ancillary_variables, dimensions) are read from the variable
+   being turned into a field only.  read_skel therefore does its lookups in
+   norm ds: that a lookup never depends on one of the other attributes is then
+   true by construction (and checked against cfdm by the correspondence). *)
+Definition lookup_attr (a : string) : bool :=
+  String.eqb a "bounds" || String.eqb a "climatology" || String.eqb a "formula_terms".
+
+Definition strip (v : var) : var :=
+  mkVar (v_name v) (v_dims v) (v_char v) (v_str v)
+        (filter (fun kv => lookup_attr (fst kv)) (v_attrs v)).
+
+Definition norm (ds : ads) : ads := mkAds (map strip (a_vars ds)) (a_external ds).
+
+(* a file edit: attribute a of variable vn is set to a value, or deleted *)
+Definition remove_key (a : string) (l : list (string * string)) : list (string * string) :=
+  filter (fun kv => negb (String.eqb (fst kv) a)) l.
+
+Definition set_attr (a : string) (val : option string) (v : var) : var :=
+  mkVar (v_name v) (v_dims v) (v_char v) (v_str v)
+        (match val with
+         | Some s => (a, s) :: remove_key a (v_attrs v)
+         | None => remove_key a (v_attrs v)
+         end).
+
+Definition edit (ds : ads) (vn a : string) (val : option string) : ads :=
+  mkAds (map (fun v => if String.eqb (v_name v) vn then set_attr a val v else v) (a_vars ds))
+        (a_external ds).
 
 Definition var_dims (ds : ads) (n : string) : res (list string) :=
   v <- get_var ds n ;; ROk (v_dims v).
@@ -222,6 +255,18 @@ Definition cons_eqb (a b : cons) : bool :=
 (* the variables a construct makes its field refer to (_reference) *)
 Definition cons_refs (c : cons) : list string :=
   c_ncvar c :: match c_bounds c with Some b => [b] | None => [] end.
+
+(* a loop over the entries of an attribute in which every entry is judged on its own:
+   the constructs and the messages of the entries, in order *)
+Fixpoint concat_pass {A} (one : A -> res (list cons * list msg)) (l : list A)
+  : res (list cons * list msg) :=
+  match l with
+  | [] => ROk ([], [])
+  | x :: r =>
+      a <- one x ;;
+      b <- concat_pass one r ;;
+      ROk (fst a ++ fst b, snd a ++ snd b)
+  end.
 
 (* ------------------------------------------------------------------ _check_bounds *)
 Definition check_bounds (ds : ads) (coord bname : string) : res (bool * list msg) :=
@@ -418,12 +463,17 @@ Definition check_formula_terms (strict : bool) (ds : ads) (field coord ft : stri
    modelled), and the formula terms *)
 Record cref := mkCref { r_ncvar : option string; r_coords : option (list string); r_terms : terms }.
 
-(* the domain ancillaries of one parametric coordinate *)
-Fixpoint ft_ancillaries (ds : ads) (field_dims : list string) (cterms bterms : terms) (todo : terms)
-  : res (list cons * bool * list msg) :=
+(* the domain ancillaries of one parametric coordinate.  Result: the constructs, the
+   terms of the coordinate reference (a term whose variable spans a dimension that
+   the data variable does not span is kept with no value, like a term whose variable
+   is missing - fix2-2), the messages *)
+Fixpoint ft_ancillaries (ds : ads) (field_dims : list string) (bterms : terms) (todo : terms)
+  : res (list cons * terms * list msg) :=
   match todo with
-  | [] => ROk ([], true, [])
-  | (_, None) :: r => ft_ancillaries ds field_dims cterms bterms r
+  | [] => ROk ([], [], [])
+  | (term, None) :: r =>
+      rest <- ft_ancillaries ds field_dims bterms r ;;
+      let '(cs, ts, ms) := rest in ROk (cs, (term, None) :: ts, ms)
   | (term, Some n) :: r =>
       d <- ncdims ds n ;;
       let axes := filter (fun x => mem x field_dims) d in
@@ -432,7 +482,27 @@ Fixpoint ft_ancillaries (ds : ads) (field_dims : list string) (cterms bterms : t
                | _ => None
                end in
       cm <- create_bounded ds CDomAnc n b ;;
-      rest <- ft_ancillaries ds field_dims cterms bterms r ;;
+      rest <- ft_ancillaries ds field_dims bterms r ;;
+      let '(cs, ts, ms) := rest in
+      if Nat.eqb (length axes) (length d) then ROk (fst cm :: cs, (term, Some n) :: ts, snd cm ++ ms)
+      else ROk (cs, (term, None) :: ts, snd cm ++ [(n, WFt, RDims)] ++ ms)
+  end.
+
+(* before fix2-2: one such term and the whole reference is dropped (ok = False) *)
+Fixpoint ft_ancillaries_head (ds : ads) (field_dims : list string) (bterms : terms) (todo : terms)
+  : res (list cons * bool * list msg) :=
+  match todo with
+  | [] => ROk ([], true, [])
+  | (_, None) :: r => ft_ancillaries_head ds field_dims bterms r
+  | (term, Some n) :: r =>
+      d <- ncdims ds n ;;
+      let axes := filter (fun x => mem x field_dims) d in
+      let b := match get_term term bterms with
+               | Some (Some b) => if String.eqb b n then None else Some b
+               | _ => None
+               end in
+      cm <- create_bounded ds CDomAnc n b ;;
+      rest <- ft_ancillaries_head ds field_dims bterms r ;;
       let '(cs, ok, ms) := rest in
       if Nat.eqb (length axes) (length d) then ROk (fst cm :: cs, ok, snd cm ++ ms)
       else ROk (cs, false, snd cm ++ [(n, WFt, RDims)] ++ ms)
@@ -458,12 +528,19 @@ Fixpoint ft_pass (strict : bool) (ds : ads) (field : string) (field_dims : list 
           z <- first_dim strict ds (c_ncvar c) ;;
           chk <- check_formula_terms strict ds field (c_ncvar c) ft z ;;
           let '(cterms, bterms, ms) := chk in
-          anc <- ft_ancillaries ds field_dims cterms bterms cterms ;;
-          let '(cs, ok, ms2) := anc in
-          rest <- ft_pass strict ds field field_dims r ;;
-          let '(cs', crs', ms') := rest in
-          if ok then ROk (cs ++ cs', mkCref None (Some [c_ncvar c]) cterms :: crs', ms ++ ms2 ++ ms')
-          else ROk (cs', crs', ms ++ ms2 ++ ms')
+          if strict then
+            anc <- ft_ancillaries_head ds field_dims bterms cterms ;;
+            let '(cs, ok, ms2) := anc in
+            rest <- ft_pass strict ds field field_dims r ;;
+            let '(cs', crs', ms') := rest in
+            if ok then ROk (cs ++ cs', mkCref None (Some [c_ncvar c]) cterms :: crs', ms ++ ms2 ++ ms')
+            else ROk (cs', crs', ms ++ ms2 ++ ms')
+          else
+            anc <- ft_ancillaries ds field_dims bterms cterms ;;
+            let '(cs, ts, ms2) := anc in
+            rest <- ft_pass strict ds field field_dims r ;;
+            let '(cs', crs', ms') := rest in
+            ROk (cs ++ cs', mkCref None (Some [c_ncvar c]) ts :: crs', ms ++ ms2 ++ ms')
       end
   end.
 
@@ -538,8 +615,9 @@ Fixpoint check_cm_list (ds : ads) (field : string) (parent : list string)
       end
   end.
 
-(* _check_cell_measures and the cell-measure part of _create_field_or_domain *)
-Definition measure_pass (ds : ads) (field : string) (s : string) : res (list cons * list msg) :=
+(* _check_cell_measures and the cell-measure part of _create_field_or_domain
+   before fix2-1: one verdict for the whole attribute *)
+Definition measure_pass_head (ds : ads) (field : string) (s : string) : res (list cons * list msg) :=
   match parse_x s with
   | [] => ROk ([], [(field, WMeasureAttr, RFormat)])
   | parsed =>
@@ -553,6 +631,29 @@ Definition measure_pass (ds : ads) (field : string) (s : string) : res (list con
                               end) parsed ;;
         ROk (cs, ms)
       else ROk ([], ms)
+  end.
+
+(* fix2-1: every "measure: variable" entry is checked on its own
+   (_check_cell_measures is called with the one-entry list) *)
+Definition measure_one (ds : ads) (field : string) (kv : string * list string)
+  : res (list cons * list msg) :=
+  parent <- ncdims ds field ;;
+  r <- check_cm_list ds field parent [kv] ;;
+  let '(ok, ms) := r in
+  if ok then
+    match snd kv with
+    | n :: _ => ROk ([mkCons CMeasure n None], ms)
+    | [] => RErr IndexErr      (* ncvars[0] *)
+    end
+  else ROk ([], ms).
+
+Definition measure_entries (ds : ads) (field : string) (parsed : list (string * list string))
+  : res (list cons * list msg) := concat_pass (measure_one ds field) parsed.
+
+Definition measure_pass (ds : ads) (field : string) (s : string) : res (list cons * list msg) :=
+  match parse_x s with
+  | [] => ROk ([], [(field, WMeasureAttr, RFormat)])
+  | parsed => measure_entries ds field parsed
   end.
 
 (* ------------------------------------------------------------------ ancillary_variables *)
@@ -570,7 +671,8 @@ Fixpoint check_anc_list (ds : ads) (parent : list string) (toks : list string) (
         else check_anc_list ds parent r false (ms ++ [(n, WAnc, RDims)])
   end.
 
-Definition anc_pass (ds : ads) (field : string) (s : string) : res (list cons * list msg) :=
+(* before fix2-1: one verdict for the whole attribute *)
+Definition anc_pass_head (ds : ads) (field : string) (s : string) : res (list cons * list msg) :=
   match split_ws s with
   | [] => ROk ([], [(field, WAncAttr, RFormat)])
   | toks =>
@@ -578,6 +680,23 @@ Definition anc_pass (ds : ads) (field : string) (s : string) : res (list cons * 
       r <- check_anc_list ds parent toks true [] ;;
       let '(ok, ms) := r in
       if ok then ROk (map (fun n => mkCons CFieldAnc n None) toks, ms) else ROk ([], ms)
+  end.
+
+(* fix2-1: every name is checked on its own
+   (_check_ancillary_variables is called with the one-name list) *)
+Definition anc_one (ds : ads) (field : string) (n : string) : res (list cons * list msg) :=
+  parent <- ncdims ds field ;;
+  r <- check_anc_list ds parent [n] true [] ;;
+  let '(ok, ms) := r in
+  if ok then ROk ([mkCons CFieldAnc n None], ms) else ROk ([], ms).
+
+Definition anc_toks (ds : ads) (field : string) (toks : list string) : res (list cons * list msg) :=
+  concat_pass (anc_one ds field) toks.
+
+Definition anc_pass (ds : ads) (field : string) (s : string) : res (list cons * list msg) :=
+  match split_ws s with
+  | [] => ROk ([], [(field, WAncAttr, RFormat)])
+  | toks => anc_toks ds field toks
   end.
 
 (* ------------------------------------------------------------------ cell_methods *)
@@ -789,8 +908,40 @@ Record fskel := mkF {
 Definition opt_pass {A} (o : option string) (dflt : A) (f : string -> res A) : res A :=
   match o with Some s => f s | None => ROk dflt end.
 
+(* the passes of _create_field_or_domain that follow the coordinates: they see the
+   coordinate constructs, not the messages so far.
+   Result: constructs, coordinate references, cell methods, messages, referenced variables *)
+Definition field_rest (strict : bool) (ds : ads) (v : var) (fdims : list string) (coords : list cons)
+  : res (list cons * list cref * list cmeth * list msg * list string) :=
+  let field := v_name v in
+  fp <- ft_pass strict ds field fdims coords ;;
+  let '(ancs, ftrefs, ftms) := fp in
+  let keys := map c_ncvar (coords ++ ancs) in
+  let vertical := flat_map (fun r => match r_coords r with Some l => l | None => [] end) ftrefs in
+  let '(gmrefs, gmvars, gmms) :=
+    match attr v "grid_mapping" with
+    | None => ([], [], [])
+    | Some s =>
+        let parsed := parse_x s in
+        let '(ok, ms) := check_grid_mapping ds field parsed in
+        if ok then let '(crs, rf, ms2) := gm_pass field parsed keys vertical in (crs, rf, ms ++ ms2)
+        else ([], [], ms)
+    end in
+  mp <- opt_pass (attr v "cell_measures") ([], [])
+          (if strict then measure_pass_head ds field else measure_pass ds field) ;;
+  cp <- opt_pass (attr v "cell_methods") ([], [])
+          (fun s => if strict then parse_cell_methods_old field s else parse_cell_methods field s) ;;
+  np <- opt_pass (attr v "ancillary_variables") ([], [])
+          (if strict then anc_pass_head ds field else anc_pass ds field) ;;
+  ROk (coords ++ ancs ++ fst mp ++ fst np, ftrefs ++ gmrefs, fst cp,
+       ftms ++ gmms ++ snd mp ++ snd cp ++ snd np,
+       flat_map cons_refs (coords ++ ancs) ++ gmvars ++
+       filter (fun n => negb (String.eqb n field)) (map c_ncvar (fst mp)) ++
+       map c_ncvar (fst np)).
+
 (* _create_field_or_domain for a data variable.  None: the variable is a domain
-   variable (it has a "dimensions" attribute) and gives no field. *)
+   variable (it has a "dimensions" attribute) and gives no field.
+   ds is the dataset as the lookups see it (norm of the file). *)
 Definition field_skel (strict : bool) (ds : ads) (v : var) : res (option fskel) :=
   match attr v "dimensions" with
   | Some _ => ROk None
@@ -799,30 +950,9 @@ Definition field_skel (strict : bool) (ds : ads) (v : var) : res (option fskel) 
       fdims <- ncdims ds field ;;
       dp <- dim_pass ds fdims ;;
       ap <- opt_pass (attr v "coordinates") ([], []) (fun s => aux_pass ds fdims (split_ws s)) ;;
-      let coords := fst dp ++ fst ap in
-      fp <- ft_pass strict ds field fdims coords ;;
-      let '(ancs, ftrefs, ftms) := fp in
-      let keys := map c_ncvar (coords ++ ancs) in
-      let vertical := flat_map (fun r => match r_coords r with Some l => l | None => [] end) ftrefs in
-      let '(gmrefs, gmvars, gmms) :=
-        match attr v "grid_mapping" with
-        | None => ([], [], [])
-        | Some s =>
-            let parsed := parse_x s in
-            let '(ok, ms) := check_grid_mapping ds field parsed in
-            if ok then let '(crs, rf, ms2) := gm_pass field parsed keys vertical in (crs, rf, ms ++ ms2)
-            else ([], [], ms)
-        end in
-      mp <- opt_pass (attr v "cell_measures") ([], []) (measure_pass ds field) ;;
-      cp <- opt_pass (attr v "cell_methods") ([], [])
-              (fun s => if strict then parse_cell_methods_old field s else parse_cell_methods field s) ;;
-      np <- opt_pass (attr v "ancillary_variables") ([], []) (anc_pass ds field) ;;
-      let cons := coords ++ ancs ++ fst mp ++ fst np in
-      ROk (Some (mkF field cons (ftrefs ++ gmrefs) (fst cp)
-                     (snd dp ++ snd ap ++ ftms ++ gmms ++ snd mp ++ snd cp ++ snd np)
-                     (flat_map cons_refs (coords ++ ancs) ++ gmvars ++
-                      filter (fun n => negb (String.eqb n field)) (map c_ncvar (fst mp)) ++
-                      map c_ncvar (fst np))))
+      r <- field_rest strict ds v fdims (fst dp ++ fst ap) ;;
+      let '(cons, crefs, meths, ms, refs) := r in
+      ROk (Some (mkF field cons crefs meths (snd dp ++ snd ap ++ ms) refs))
   end.
 
 (* ------------------------------------------------------------------ read *)
@@ -878,7 +1008,7 @@ Definition select_fields (fs : list fskel) : list fskel :=
   filter (fun f => negb (mem (f_ncvar f) still)) fs.
 
 Definition read_skel_gen (strict : bool) (ds : ads) : res (list fskel) :=
-  fs <- all_fields strict ds (a_vars ds) ;; ROk (select_fields fs).
+  fs <- all_fields strict (norm ds) (a_vars ds) ;; ROk (select_fields fs).
 
 Definition read_skel := read_skel_gen false.
 Definition read_skel_old := read_skel_gen true.
